@@ -45,8 +45,13 @@ class PandasModel:
                     keys = tuple(cval(by))
             asc = kwargs.get('ascending')
             interp.emit('sort_values', node, frame=recv, keys=keys, ascending=cval(asc) if asc is not None and has_const(asc) else True)
-            return recv.w(sorted_by=keys, sort_asc=cval(asc) if asc is not None and has_const(asc) else True, store='fresh', fresh=True, deps=d)
+            ii = kwargs.get('ignore_index')
+            relabel = ii is not None and has_const(ii) and bool(cval(ii))
+            # without ignore_index the rows keep their old labels: labels are no longer positions
+            return recv.w(sorted_by=keys, sort_asc=cval(asc) if asc is not None and has_const(asc) else True, store='fresh', fresh=True, deps=d,
+                          labels_permuted=None if relabel else True)
         if name == 'reset_index':
+            recv = recv.w(labels_permuted=None)
             cols = dict(recv.cols) if recv.cols else None
             drop = kwargs.get('drop')
             if cols is not None and not (drop is not None and has_const(drop) and cval(drop)):
